@@ -54,9 +54,17 @@ def main():
         print("cannot place demo (package %s)" % pkg); return 2
     demodst = os.path.join(wt, pkgdir, "zz_seeded_demo_test.go")
 
+    # a demonstration that only fails when run on its own or under the race detector says so in demo_args.txt
+    # (e.g. "-race -run TestDemoC20P"); the file is kept next to the demo
+    extra = []
+    argsf = os.path.join(os.path.dirname(demo), "demo_args.txt")
+    if os.path.exists(argsf):
+        extra = open(argsf).read().split()
+    meta["demo_args"] = extra
+
     def demo_run():
         shutil.copyfile(demo, demodst)
-        rc, out = run(["go", "test", "-count=1", "-vet=off", "./" + pkgdir + "/"], cwd=wt, timeout=1200)
+        rc, out = run(["go", "test", "-count=1", "-vet=off"] + extra + ["./" + pkgdir + "/"], cwd=wt, timeout=1200)
         os.remove(demodst)
         return rc, out
 
@@ -121,6 +129,8 @@ def main():
         shutil.copyfile(demo, os.path.join(dst, "demo_test.go"))
         if os.path.exists(os.path.join(src, "README.md")):
             shutil.copyfile(os.path.join(src, "README.md"), os.path.join(dst, "README.md"))
+        if os.path.exists(os.path.join(src, "demo_args.txt")):
+            shutil.copyfile(os.path.join(src, "demo_args.txt"), os.path.join(dst, "demo_args.txt"))
         meta["demo_package_dir"] = pkgdir
         meta["ran"] = ["git apply patch.diff (scratch worktree of /repo)", "go build ./... ; go test -count=1 ./...", "go test ./%s/ with demo_test.go (with and without the patch)" % pkgdir,
                        "VERIF_REPO=<worktree> ./check %s --tier %s" % (pid, tier)]
